@@ -21,7 +21,7 @@ STUBS = ["log_likelihood -> ln L(sorted alleles) (one positive real per unordere
          "add_log_prob / normalise_log_probs summaries (lemmas discharged in C17)"]
 ASSUMES = ["L(g) > 0; F symbolic in (0,1) or 0; frequencies symbolic > 0 (sum 1), flat, or with the last entry exactly 0",
            "float32 storage of GL modelled as exact reals (the property allows single-precision rounding)"]
-BOUNDS = {"quick": "ploidy x alleles: array path 2x2, 2x3, 3x2, 3x3, 4x2; streaming path 2x2, 2x3, 3x2 (all orderings of the joint probabilities via running-max forks); application level 2x2, 2x3 with 10 --report subsets (FORMAT GP/GL/AFP/ACP/AOP and INFO AFP/ACP/AOP/AOPSUM through sumarise_vcf_record, one sample)",
+BOUNDS = {"quick": "ploidy x alleles: array path 2x2, 2x3, 3x2, 3x3, 4x2; streaming path 2x2, 2x3, 3x2 (all orderings of the joint probabilities via running-max forks), the same shapes on an empty read array (likelihood 1); application level 2x2, 2x3 with 10 --report subsets (FORMAT GP/GL/AFP/ACP/AOP and INFO AFP/ACP/AOP/AOPSUM through sumarise_vcf_record, one sample)",
           "thorough": "streaming path adds 2x4, 4x2, 6x2; array path adds 3x3, 4x3, 3x4; application level adds 3x2, 4x2"}
 OUTSIDE = "more genotypes; float32 rounding of GL; exact ties decided arbitrarily (both paths use first-maximum)"
 TASKS_PER_CHILD = 2
@@ -45,6 +45,11 @@ def configs(tier):
         for inbred in (True, False):
             for freqs in ("none", "sym", "zero"):
                 out.append(dict(group="kernel", P=P, A=A, inbred=inbred, freqs=freqs, stream=stream))
+    # a sample without reads at the locus (the posterior is the prior): both paths on an EMPTY read array
+    for P, A in ((2, 2), (2, 3), (3, 2)):
+        for inbred in (True, False):
+            for freqs in ("none", "sym"):
+                out.append(dict(group="kernel", P=P, A=A, inbred=inbred, freqs=freqs, stream=True, noreads=True))
     for P, A in app:
         for inbred in (True, False):
             for r in range(1, len(REPORT_SETS)):
@@ -73,6 +78,8 @@ def _harness():
     def stub_llk(reads, genotype, read_counts=None):
         v = llvar([int(r[0]) for r in genotype])
         E.Ctx.cur.assume(v > 0)
+        if reads is not None and len(reads) == 0:
+            E.Ctx.cur.assume(v == 1)  # the likelihood of an empty read set (a sample without reads at the locus)
         return E.np.log(E.SymReal(v))
 
     ex.log_likelihood = stub_llk
@@ -108,6 +115,11 @@ def _functionals(c, order, J, tot):
     return afp, acp, aop
 
 
+def READS(c):
+    """a read array of the documented shape (the stubbed likelihood ignores its content): two reads, or none for the no-reads configurations"""
+    return rnp.zeros((0 if c.get("noreads") else 2, 1, c["A"]))
+
+
 def run_config(c, col):
     ex = _harness()
     if c["group"] == "app":
@@ -122,7 +134,7 @@ def run_config(c, col):
         def body(ctx):
             F, fz, farr = _params(ctx, c)
             Fv = E.SymReal(F) if F is not None else 0
-            llks = ex.genotype_likelihoods(None, P, haps)
+            llks = ex.genotype_likelihoods(READS(c), P, haps)
             post = ex.genotype_posteriors(llks, P, A, inbreeding=Fv, frequencies=farr)
             freqs, counts, occur = ex.posterior_allele_frequencies(post, P, A)
             return F, fz, llks, post, freqs, counts, occur
@@ -155,7 +167,7 @@ def run_config(c, col):
             def body2(ctx):
                 F, fz, farr = _params(ctx, c)
                 Fv = E.SymReal(F) if F is not None else 0
-                res = ex.posterior_mode(None, P, haps, inbreeding=Fv, frequencies=farr, return_support_prob=True,
+                res = ex.posterior_mode(READS(c), P, haps, inbreeding=Fv, frequencies=farr, return_support_prob=True,
                                         return_posterior_frequencies=True, return_posterior_occurrence=True)
                 return F, fz, res
 
@@ -244,7 +256,7 @@ def _run_app(c, col, ex):
                   FORMAT.DP, FORMAT.RCOUNT, FORMAT.SNVDP]
         data = bc.LocusAssemblyData(
             locus=_Locus(haps, farr), samples=["s"], sample_bams={"s": "x.bam"}, sample_ploidy={"s": P}, sample_inbreeding={"s": Fv},
-            read_calls={"s": rnp.zeros((1, 1), dtype=int)}, read_dists={"s": None}, read_counts={"s": None},
+            read_calls={"s": rnp.zeros((1, 1), dtype=int)}, read_dists={"s": rnp.zeros((2, 1, A))}, read_counts={"s": None},
             infofields=prog.info_fields, formatfields=prog.format_fields,
             columndata={COLUMN.REF: "A", COLUMN.ALT: ["C", "G", "T"][: A - 1], COLUMN.FILTER: []}, infodata={}, sampledata={f: {} for f in fields})
         out = prog.call_sample_genotypes(data)
@@ -365,7 +377,7 @@ def replay(v):
     w = v.get("witness") or {}
 
     def arrays(rex):
-        llks = _py(rex._genotype_likelihoods)(None, P, haps, len(order))
+        llks = _py(rex._genotype_likelihoods)(READS(c), P, haps, len(order))
         post = rex.genotype_posteriors(llks.astype(float), P, A, F, farr)
         return llks, post, rex.posterior_allele_frequencies(post, P, A)
 
@@ -377,7 +389,7 @@ def replay(v):
         try:
             for n_ in names:
                 setattr(rex, n_, _py(saved[n_]))
-            mode, mllk, gpm, spm, fr, oc = rex.posterior_mode(None, P, haps, inbreeding=F, frequencies=farr, return_support_prob=True,
+            mode, mllk, gpm, spm, fr, oc = rex.posterior_mode(READS(c), P, haps, inbreeding=F, frequencies=farr, return_support_prob=True,
                                                               return_posterior_frequencies=True, return_posterior_occurrence=True)
         finally:
             for n_ in names:
@@ -386,7 +398,8 @@ def replay(v):
 
     afp = [sum(Jn[g] * g.count(a) for g in order) / (P * tot) for a in range(A)]
     aop = [sum(Jn[g] for g in order if a in g) / tot for a in range(A)]
-    if c["group"] == "kernel" and kind in ("gl-order", "posterior-vs-oracle", "allele-functionals", "afp-acp-totals"):
+    streaming = str(v.get("site", "")).endswith("posterior_mode")  # "allele-functionals" is claimed for both paths
+    if c["group"] == "kernel" and kind in ("gl-order", "posterior-vs-oracle", "allele-functionals", "afp-acp-totals") and not (streaming and kind == "allele-functionals"):
         llks, post, (fr, cn, oc) = _with_stub(m, arrays)
         if kind == "gl-order":
             i = w["i"]
@@ -479,7 +492,7 @@ def _real_app(c, m, F, farr, report):
         freqs = farr if farr is not None else rnp.full(A, 1.0 / A)
         data = rbc.LocusAssemblyData(
             locus=_Locus(haps, freqs), samples=["s"], sample_bams={"s": "x.bam"}, sample_ploidy={"s": P}, sample_inbreeding={"s": F},
-            read_calls={"s": rnp.zeros((1, 1), dtype=int)}, read_dists={"s": None}, read_counts={"s": None},
+            read_calls={"s": rnp.zeros((1, 1), dtype=int)}, read_dists={"s": rnp.zeros((2, 1, A))}, read_counts={"s": None},
             infofields=prog.info_fields, formatfields=prog.format_fields,
             columndata={COLUMN.REF: "A", COLUMN.ALT: ["C", "G", "T"][: A - 1], COLUMN.FILTER: []}, infodata={}, sampledata={f_: {} for f_ in fields})
         info = None
